@@ -545,6 +545,42 @@ def ctx(F, res):
                 res.add([finding("CTX", key, where(f), "`%s` is lowered in %s context here but in %s context in the sibling blocks: an input or policy name there means something else" % (k, got or "the inherited", want or "the inherited"))])
 
 
+def block_ctx(F, res, rule="CTX", blocks=None):
+    """Context switches belong to the field arms (where the rule above compares them key by key), not to the block: a block's
+    own lowering hands its fields the context it was given.  In the `into_lower` of every block type (its closures included)
+    the context argument of each nested `into_lower` call derives from the block's own parameter, never from an
+    `enter_*_expr()` made in the block - that would put *all* its fields (a redeemer, an amount) into one context."""
+    from ..common import outer_origins
+    n = 0
+    for enum, block in BLOCKS_SPEC:
+        if blocks is not None and block not in blocks:
+            continue
+        f = F.fns.get("<%s as %s>::into_lower" % (block, LOW))
+        if f is None:
+            continue
+        bad = None
+        for b in with_closures(F, f):
+            du = mir.DefUse(b)
+            for bi, t in mir.calls(b):
+                if not (t.get("trait") == LOW and t.get("method") == "into_lower" and len(t["args"]) == 2):
+                    continue
+                n += 1
+                # captured variables of (nested) closures are resolved where the closures are created; what the block's
+                # callers did with the context is not the block's business
+                orgs = [o for fn2, o in outer_origins(F, b, t["args"][1], depth=3) if fn2["path"].startswith(f["path"])] if b.get("def_kind") == "Closure" \
+                    else mir.provenance(b, du, t["args"][1])
+                for o in orgs:
+                    m = re.search(r"lowering::Context::enter_(address|asset|datum)_expr$", o.callee or "") if o.kind == "call" else None
+                    if m:
+                        bad = (t["line"], m.group(1))
+        key = "%s|fields are lowered in the context the block was given" % block.split("::")[-1]
+        if bad:
+            res.add([finding(rule, key, where(f, bad[0]), "the block's own lowering switches to the %s context before lowering its fields: every field of the block - redeemer, amount, .. - is then read in that context (a policy name becomes a script address)" % bad[1])])
+        else:
+            res.add([ok(rule, key, where(f), "nested lowerings receive the block's own context")])
+    return n
+
+
 # ------------------------------------------------------------------------------------------------
 def fielduse(F, res):
     cg = CallGraph(F, callbacks=False)
@@ -822,6 +858,7 @@ def run(ctx_):
     attrib(F, res)
     self_rebuilds(F, res)
     ctx(F, res)
+    block_ctx(F, res)
     fielduse(F, res)
     nofilter(F, res)
     order(F, res)
